@@ -144,15 +144,17 @@ def arith(ex, op, a, b):
     """binary arithmetic on two int-like or real values"""
     if is_real(a) or is_real(b):
         x, y = lift_real(a), lift_real(b)
-        if op == "+":
-            return Sym(x + y, REAL)
-        if op == "-":
-            return Sym(x - y, REAL)
-        if op == "*":
-            return Sym(x * y, REAL)
-        if op == "/":
-            return Sym(x / y, REAL)
-        raise OutOfReach(f"real operator {op}")
+        if op not in "+-*/":
+            raise OutOfReach(f"real operator {op}")
+        exact = {"+": x + y, "-": x - y, "*": x * y, "/": x / y}[op]
+        if ex.opt.get("ieee"):
+            # binary64 standard model: fl(a o b) = (a o b)(1 + d), |d| <= 2**-53
+            # (no overflow / underflow in the range the contracts state)
+            d = z3.Real(ex.fresh_name("ulp"))
+            u = z3.RealVal(1) / z3.RealVal(2 ** 53)
+            ex.assume(z3.And(d >= -u, d <= u))
+            return Sym(exact * (1 + d), REAL)
+        return Sym(exact, REAL)
     if isinstance(a, (int, bool)) and isinstance(b, (int, bool)) and op != "/":
         import operator as o
         try:
